@@ -379,4 +379,167 @@ theorem killK_quiet (k : KWorld α) (o : Nat) (hq : Quiet k) (hL : k.w.locked = 
   · show (k.w.kill o).edges.Nodup
     exact List.Nodup.sublist List.filter_sublist hq.2.2
 
+/-! ### The weak-reference callback -/
+
+theorem icb_ite (dead : Nat) (l : Bool) (c : CbCond) (x y : CbStmt) (cur : Option Pair) (t : CbTable) :
+    interpCbT dead l (.ite c x y) cur t =
+      (match evalCb dead l cur t c with
+       | .error e => .error e
+       | .ok true => interpCbT dead l x cur t
+       | .ok false => interpCbT dead l y cur t) := rfl
+
+theorem icb_seq (dead : Nat) (l : Bool) (a b : CbStmt) (cur : Option Pair) (t : CbTable) :
+    interpCbT dead l (.seq a b) cur t =
+      (match interpCbT dead l a cur t with
+       | .ok t1 => interpCbT dead l b cur t1
+       | .error e => .error e) := rfl
+
+theorem icb_forEntries (dead : Nat) (l : Bool) (body : CbStmt) (cur : Option Pair) (t : CbTable) :
+    interpCbT dead l (.forEntries body) cur t =
+      t.entries.foldl (fun acc e =>
+        match acc with
+        | .ok t1 => interpCbT dead l body (some e) t1
+        | .error x => .error x) (.ok t) := rfl
+
+/-- The entry loop: the entries of the collected partner go. -/
+theorem cb_entries (dead : Nat) : ∀ (rest S : List Pair) (d : Bool),
+    rest.foldl (fun (acc : Except Exc CbTable) e =>
+      match acc with
+      | Except.ok t1 => interpCbT dead false (.ite .refIsEntry .delEntry .skip) (some e) t1
+      | Except.error x => Except.error x) (Except.ok { entries := S, deleted := d }) =
+    Except.ok { entries := S.filter (fun x => !(decide (x ∈ rest) && decide (x.1 = dead))), deleted := d } := by
+  intro rest
+  induction rest with
+  | nil => intro S d; simp [List.filter_eq_self.mpr]
+  | cons e es ih =>
+    intro S d
+    simp only [List.foldl_cons]
+    by_cases hd : e.1 = dead
+    · have : interpCbT dead false (.ite .refIsEntry .delEntry .skip) (some e) { entries := S, deleted := d } =
+          Except.ok { entries := S.filter (· ≠ e), deleted := d } := by
+        simp [interpCbT, evalCb, hd]
+      rw [this, ih, List.filter_filter]
+      congr 2
+      apply List.filter_congr
+      intro x _
+      by_cases hx : x = e
+      · subst hx; simp [hd]
+      · simp [hx]
+    · have : interpCbT dead false (.ite .refIsEntry .delEntry .skip) (some e) { entries := S, deleted := d } =
+          Except.ok { entries := S, deleted := d } := by
+        simp [interpCbT, evalCb, hd]
+      rw [this, ih]
+      congr 2
+      apply List.filter_congr
+      intro x _
+      by_cases hx : x = e
+      · subst hx; simp [hd]
+      · simp [hx]
+
+/-- One partner table. -/
+theorem cb_table (dead : Nat) (es : List Pair) :
+    interpCbT dead false (.ite .keyNotLockTable (.seq (.forEntries (.ite .refIsEntry .delEntry .skip))
+      (.ite .tableEmpty .delTable .skip)) .skip) none { entries := es } =
+    Except.ok { entries := es.filter (fun e => e.1 ≠ dead), deleted := (es.filter (fun e => e.1 ≠ dead)).isEmpty } := by
+  have hf : es.filter (fun x => !(decide (x ∈ es) && decide (x.1 = dead))) = es.filter (fun e => e.1 ≠ dead) := by
+    apply List.filter_congr
+    intro x hx
+    simp [hx]
+  rw [icb_ite]
+  simp only [evalCb, Bool.not_false]
+  rw [icb_seq, icb_forEntries, cb_entries dead es es false, hf]
+  simp only []
+  rw [icb_ite]
+  simp only [evalCb]
+  cases h : (es.filter (fun e => e.1 ≠ dead)).isEmpty <;> simp [interpCbT]
+
+theorem cb_tabs (dead : Nat) : ∀ tabs : List (Name × List Pair),
+    runTabs dead (.ite .keyNotLockTable (.seq (.forEntries (.ite .refIsEntry .delEntry .skip))
+      (.ite .tableEmpty .delTable .skip)) .skip) tabs =
+    Except.ok ((tabs.map (fun t => (t.1, t.2.filter (fun e => e.1 ≠ dead)))).filter (fun t => !t.2.isEmpty)) := by
+  intro tabs
+  induction tabs with
+  | nil => rfl
+  | cons t ts ih =>
+    obtain ⟨n, es⟩ := t
+    unfold runTabs
+    rw [cb_table, ih]
+    simp only [List.map_cons, List.filter_cons]
+    cases h : (es.filter (fun e => e.1 ≠ dead)).isEmpty <;> simp
+
+/-- The callback (hand-written) is the interpretation of its source text: for
+every `__sync_trait__` and every collected partner it raises nothing and leaves
+`cbModel`. -/
+theorem cbModel_is_source (dead : Nat) (i : Info) :
+    interpCb dead Generated.SyncLink.listenerDeleted i = .ok (cbModel dead i) := by
+  unfold Generated.SyncLink.listenerDeleted interpCb cbModel
+  simp only []
+  rw [cb_tabs]
+  cases hl : i.lock with
+  | none => rfl
+  | some ns =>
+    simp only [interpCbT, evalCb, Bool.not_true]
+    simp [List.map_map, Function.comp_def]
+
+/-! ### The callback on every survivor is `World.kill` -/
+
+theorem partners_kill (w : World α) (o s : Nat) (n : Name) (hs : s ≠ o) :
+    (w.kill o).partners (s, n) = (w.partners (s, n)).filter (fun e => e.1 ≠ o) := by
+  unfold World.partners World.kill
+  simp only [List.filter_map, List.filter_filter]
+  congr 1
+  apply List.filter_congr
+  intro e _
+  by_cases h : e.src = (s, n)
+  · have : e.src.1 ≠ o := by rw [h]; exact hs
+    simp [h, this, hs]
+  · simp [h]
+
+theorem partners_kill_own (w : World α) (o : Nat) (n : Name) : (w.kill o).partners (o, n) = [] := by
+  unfold World.partners World.kill
+  simp only [List.filter_filter, List.map_eq_nil_iff, List.filter_eq_nil_iff]
+  intro e _
+  by_cases h : e.src = (o, n)
+  · have : e.src.1 = o := by rw [h]
+    simp [this]
+  · simp [h]
+
+theorem tabs_map_filter (f : List Pair → List Pair) (hf : f [] = []) (g : Name → List Pair) (ns : List Name) :
+    (ns.map (fun n => (n, f (g n)))).filter (fun t => !t.2.isEmpty) =
+      (((ns.map (fun n => (n, g n))).filter (fun t => !t.2.isEmpty)).map (fun t => (t.1, f t.2))).filter
+        (fun t => !t.2.isEmpty) := by
+  induction ns with
+  | nil => rfl
+  | cons n ns ih =>
+    simp only [List.map_cons, List.filter_cons]
+    cases hg : g n with
+    | nil => simp [hf, ih]
+    | cons a as =>
+      simp only [List.isEmpty_cons, Bool.not_false, if_true, List.map_cons, List.filter_cons]
+      rw [← hg, ih]
+
+/-- **Per survivor**: running the callback on survivor `s`'s `__sync_trait__` gives
+exactly `s`'s `__sync_trait__` after `World.kill`. -/
+theorem callback_is_kill (names : List Name) (w : World α) (o s : Nat) (hs : s ≠ o) :
+    infoOf names (w.kill o) s = cbModel o (infoOf names w s) := by
+  unfold infoOf cbModel
+  have hlock : (w.kill o).locked.filter (fun l => l.1 = s) = w.locked.filter (fun l => l.1 = s) := by
+    show (w.locked.filter (fun p => p.1 ≠ o)).filter (fun l => l.1 = s) = _
+    rw [List.filter_filter]
+    apply List.filter_congr
+    intro l _
+    by_cases h : l.1 = s
+    · have : l.1 ≠ o := by rw [h]; exact hs
+      simp [h, this, hs]
+    · simp [h]
+  simp only [hlock, partners_kill w o s _ hs]
+  congr 1
+  exact tabs_map_filter (fun l => l.filter (fun e => e.1 ≠ o)) rfl (fun n => w.partners (s, n)) names
+
+/-- The collected object's own tables go with it. -/
+theorem own_tables_dropped (names : List Name) (w : World α) (o : Nat) :
+    (infoOf names (w.kill o) o).tabs = [] := by
+  unfold infoOf
+  simp [partners_kill_own]
+
 end TraitsVerif.Model.SyncLive
